@@ -230,9 +230,9 @@ Definition run_auth_seq (cfg : scram_cfg) (d : mech_desc) (lad : bool) (scripts 
 (* ---- the Gallina reference SCRAM server with executable crypto, for its own validation against harness/saslx ---- *)
 (* one account: [acct] with the credentials derived from the prepared password; result: server-first and, if the
    client-final is accepted, server-final *)
-Definition ref_server_run (v256 plus : bool) (cbname cbdata snonce acct npass salt : bytes) (iter : nat)
+Definition ref_server_run (v256 plus : bool) (cbname cbdata snonce ext acct npass salt : bytes) (iter : nat)
            (cfirst cfinal : bytes) : option (bytes * option bytes) :=
-  let c := {| sc_plus := plus; sc_cbname := cbname; sc_cbdata := cbdata; sc_snonce := snonce |} in
+  let c := {| sc_plus := plus; sc_cbname := cbname; sc_cbdata := cbdata; sc_snonce := snonce; sc_ext := ext |} in
   let a := store (hash_of v256) (hmac_of v256) npass salt iter in
   match scram_server_first c (fun u => if bytes_eqb u acct then Some a else None) cfirst with
   | None => None
